@@ -106,6 +106,7 @@ class Shape:
         if len(self.fns) != sum(isinstance(n, (ast.FunctionDef, ast.AsyncFunctionDef)) for n in self.cls.body):
             self._bad("method defined twice")
         self._lock_uses_ok()
+        self.constants = self._constant_privates()
         for name, fn in self.fns.items():
             self._method(name, fn)
 
@@ -267,6 +268,29 @@ class Shape:
         block(fn.body, make_sinks(me["items"]))
         me["unlocked"] = self._unlocked(fn)
 
+    def _constant_privates(self):
+        """private attributes that are bound in `__init__` and afterwards only READ AS A WHOLE: outside `__init__` every mention
+        is a plain load that is neither stored to / deleted nor used as `self._x.<attr>` / `self._x[...]` (so it is not mutated
+        through a method call or an item assignment either).  Such an attribute is configuration, not state; reading it
+        outside the lock is no check-then-act window."""
+        mutable, seen = set(), set()
+        for name, fn in self.fns.items():
+            if name == "__init__":
+                continue
+            parent = {}
+            for n in ast.walk(fn):
+                for c in ast.iter_child_nodes(n):
+                    parent[id(c)] = n
+            for n in ast.walk(fn):
+                if _is_self_attr(n) and n.attr.startswith("_") and not n.attr.startswith("__"):
+                    seen.add(n.attr)
+                    par = parent.get(id(n))
+                    if (not isinstance(n.ctx, ast.Load) or (isinstance(par, ast.Attribute) and par.value is n)
+                            or (isinstance(par, ast.Subscript) and par.value is n)
+                            or isinstance(par, (ast.AugAssign, ast.For, ast.comprehension, ast.Starred))):
+                        mutable.add(n.attr)
+        return seen - mutable
+
     def _unlocked(self, fn):
         """private attributes of self (the lifecycle's state; the lock itself and method names aside) that the method mentions -
         reads or writes - OUTSIDE every `with self._lock:` region of its own body, sorted.  What a self-method called outside
@@ -280,7 +304,7 @@ class Shape:
                         rec(it.context_expr)
                 return
             if (_is_self_attr(n) and n.attr.startswith("_") and not n.attr.startswith("__") and n.attr != LOCKATTR
-                    and n.attr not in self.fns):
+                    and n.attr not in self.fns and n.attr not in getattr(self, "constants", set())):
                 out.add(n.attr)
             for c in ast.iter_child_nodes(n):
                 rec(c)
